@@ -1078,6 +1078,14 @@ class VhdlScope:
 
         elif is_signal:
             if not obj.has_default():
+                if isinstance(obj, Temporary) and isinstance(
+                    TypeQualifier.decay(obj), Integer
+                ):
+                    # integer'left is not a valid index/shift amount during initialization
+                    return [
+                        f"signal {name} : {self.format_type(obj)} := 0;",
+                        *attributes,
+                    ]
                 return [f"signal {name} : {self.format_type(obj)};", *attributes]
             else:
                 return [
